@@ -97,6 +97,34 @@ func init() {
 				Ret:    RetValErr, RetType: "IssTokenResponse", JoinIf: true, LetIf: true, Rename: ren, ZeroOf: zero},
 		},
 	})
+	// ---- (deep4) CreateIDToken / CreateJWT once more, over the storage as a STATE-PASSING ORACLE (Model/IssueC06O.lean; namespace
+	// GenC06O, Generated/IssueC06O.lean): every storage call is an oracle step whose answer may depend on all calls before it, so a
+	// SECOND fetch of the signing key (seeded C06-P) is a second step with its own answer.  Everything that does not touch the
+	// storage (claim hash, scope filtering) is the GenC06 definition.
+	pOStorage := "(storage : IssOStorage)"
+	autoO := func(claims string) map[string]string {
+		return map[string]string{"Storage": "IssOStorage", "any": claims, "SigningKey": "IssSigningKey", "IDTokenRequest": "IssRequest",
+			"TokenRequest": "IssRequest", "Client": "IssClient", "*oidc.IDTokenClaims": "IssIDTokenClaims", "*oidc.AccessTokenClaims": "IssAccessTokenClaims",
+			"*oidc.UserInfo": "IssUserInfo", "jose.Signer": "IssSigner"}
+	}
+	extraGroups = append(extraGroups, Group{
+		Out:     "IssueC06O.lean",
+		NS:      "GenC06O",
+		Imports: []string{"OidcModel.Model.IssueC06O", "OidcModel.Generated.IssueC06"},
+		Opens:   []string{"Go", "Hand", "Const", "IssC06", "GenC06"},
+		Funcs: []FuncSpec{
+			{File: tok, Name: "CreateIDToken", Lean: "CreateIDToken",
+				Params: []string{"(issuer : String)", pReq, "(validity : Int)", "(accessToken code : String)", pOStorage, pClient},
+				Ret:    RetValErr, RetType: "String", JoinIf: true, LetIf: true, LocalOut: uiOut, OracleVars: []string{"storage"},
+				InOutVal: map[string]int{"crypto.HashString": 0}, AutoOwn: true, AutoTypes: autoO("IssAnyClaims"),
+				Rename: with(map[string]string{"crypto.Sign()": "Hand.issSignAny"})},
+			{File: tok, Name: "CreateJWT", Lean: "CreateJWT",
+				Params: []string{"(issuer : String)", "(tokenRequest : IssRequest)", "(exp : Int)", "(id : String)", pClient, pOStorage},
+				Ret:    RetValErr, RetType: "String", JoinIf: true, LetIf: true, ZeroOf: zero, OracleVars: []string{"storage"},
+				InOutVal: map[string]int{"crypto.HashString": 0}, AutoOwn: true, AutoTypes: autoO("IssAnyClaims"),
+				Rename: with(map[string]string{"crypto.Sign()": "Hand.issSignAny"})},
+		},
+	})
 	// ---- (deep3) the signing path: SignerFromKey, crypto.Sign / SignPayload, and the builder of the published key set,
 	// over structured tokens (Model/IssueC06Key.lean; namespace GenC06K, Generated/IssueC06Key.lean)
 	joseLits := map[string]StructLit{"jose.SigningKey{}": {Lean: "IssKJoseKey", Keep: []string{"Algorithm", "Key"}},
